@@ -112,7 +112,7 @@ def _generate_slice(ns, node):
         else:
             sr = f"[{node.start}]"
     r, s = _generate_expression(ns, node.value)
-    return r + sr, s
+    return r + sr, False # Slices are unsigned.
 
 # Print Cat ----------------------------------------------------------------------------------------
 
